@@ -12,10 +12,22 @@ def tyOf (r : NT) : Ty := (r.inputs, r.shape)
 
 /-! ### Typing commutes with evaluation, op by op -/
 
-theorem unary_ty (op : Op) (a : NT) : (unaryOp op a).map tyOf = tyUnary op (a.inputs, a.shape) := by
-  unfold unaryOp unary tyUnary
-  generalize pointwiseUn.contains op.name = B
-  cases B <;> simp [tyOf]
+theorem unaryOp_pointwise (op : Op) (a : NT) (h : pointwiseUn.contains op.name = true) :
+    unaryOp op a = unary op.name a := by
+  simp only [pointwiseUn, List.contains_eq_mem, List.mem_cons, List.mem_nil_iff, or_false, decide_eq_true_eq] at h
+  unfold unaryOp
+  rcases h with h | h | h | h | h <;> rw [h] <;> simp [reductionOps, List.lookup]
+
+theorem unary_ty (op : Op) (a : NT) : (unaryOp op a).map tyOf = tyUnary op (a.inputs, a.shape) ∨
+    tyUnary op (a.inputs, a.shape) = none := by
+  unfold tyUnary
+  cases hB : pointwiseUn.contains op.name
+  · right; simp
+  · left
+    rw [unaryOp_pointwise op a hB]
+    unfold unary
+    rw [if_pos hB]
+    rfl
 
 theorem reduce1_ty (op : String) (vars : List (Name × Nat)) (a : NT) :
     (reduce op vars a).map tyOf = tyReduce1 op vars (a.inputs, a.shape) := by
@@ -121,7 +133,7 @@ mutual
       · rename_i ta hta
         obtain ⟨ra, hra, hty⟩ := peval_total_core a ta hta
         subst hty
-        obtain ⟨r, hr, hrt⟩ := map_tyOf_some ((unary_ty op ra).trans h)
+        obtain ⟨r, hr, hrt⟩ := map_tyOf_some ((unary_ty op ra).elim (fun e => e.trans h) (fun e => by have h' : tyUnary op (ra.inputs, ra.shape) = some τ := h; rw [e] at h'; cases h'))
         exact ⟨r, by simp only [peval, hra, hr], hrt⟩
       · cases h
     | Term.binary op l rr, τ, h => by
